@@ -118,6 +118,10 @@ class Emitter:
         self.self_struct = None
         self.join_id = 0
         self.pending = {}
+        # optional vocabulary key `drops`: destructors of temporaries (lock guards) that vocabulary callables have
+        # registered (`em.drops.append(callable(env, k))`); run at the end of the enclosing temporary scope
+        # (statement, match arm, tail expression of a block), see flush_drops
+        self.drops = []
         # every identifier the vocabulary mentions is reserved (a Rust variable of the same
         # name gets a numeric suffix), plus the combinators of Model/Base.v and Model/Imp.v
         import re
@@ -285,8 +289,17 @@ class Emitter:
                 e = e.recv
             elif e.kind == "mcall" and not e.args and e.name in self.v.get("transparent_places", ()):
                 e = e.recv
+            elif e.kind == "mcall" and not e.args and e.name in self.v.get("place_writers", {}):
+                e = e.recv
             else:
                 return None
+
+    def flush_drops(self, mark, env, k):
+        """run (innermost first) the destructors registered since `mark`, then k(env')"""
+        if len(self.drops) <= mark:
+            return k(env)
+        d = self.drops.pop()
+        return d(env, lambda env1: self.flush_drops(mark, env1, k))
 
     def field_info(self, sty, fname):
         if sty[0] != "struct":
@@ -309,6 +322,11 @@ class Emitter:
         if place.kind == "mcall" and not place.args and place.name in self.v.get("transparent_places", ()):
             # vocabulary `transparent_places`: methods that hand out a write-through view of their receiver
             return self.write_place(place.recv, term, env, k)
+        if place.kind == "mcall" and not place.args and place.name in self.v.get("place_writers", {}):
+            # optional vocabulary key `place_writers: {method: callable(em, place, term, env, k)}`: a method that hands
+            # out a view of a PART of its receiver (a lock guard over the writer inside a locked stream); the
+            # callable says how a new value of the view goes back into the receiver
+            return self.v["place_writers"][place.name](self, place, term, env, k)
         if place.kind == "path" and len(place.segs) == 1:
             name = place.segs[0]
             v = env.get(name)
@@ -915,12 +933,22 @@ class Emitter:
         return val
 
     def stmts(self, stmts, i, tail, env, k):
+        use_drops = bool(self.v.get("drops"))
         if i == len(stmts):
             if tail is None:
                 return k("tt", UNIT, env)
+            if use_drops:
+                # temporaries of the tail expression die when the block is left
+                mark_t = len(self.drops)
+                return self.expr(tail, env, lambda t, ty, env1: self.flush_drops(mark_t, env1, lambda env2: k(t, ty, env2)))
             return self.expr(tail, env, k)
         s = stmts[i]
         rest = lambda env1: self.stmts(stmts, i + 1, tail, env1, k)
+        if use_drops:
+            # temporaries of a statement die at its end
+            mark_s = len(self.drops)
+            rest0 = rest
+            rest = lambda env1: self.flush_drops(mark_s, env1, rest0)
         if s.kind in ("expr", "let") and getattr(s, "attrs", None):
             cs = self.cfg_static(s.attrs)
             if cs is False:
@@ -1429,6 +1457,11 @@ class Emitter:
                         for rn, cn, t, mut in binds:
                             env2 = env2.bind(rn, cn, t, mut)
                         kka = self.arm_writeback(scr, p, binds, kk) if len(comps) == 1 else kk
+                        if self.v.get("drops"):
+                            # a match arm is a temporary scope: its temporaries die before the arm is left
+                            kkb = kka
+                            mark_a = len(self.drops)
+                            kka = lambda t, ty, benv, kkb=kkb, mark_a=mark_a: self.flush_drops(mark_a, benv, lambda env3: kkb(t, ty, env3))
                         out.append("| %s =>\n%s" % (ps, ind(self.expr(body, env2, kka), 4)))
                     out.append("end")
                     return "\n".join(out)
